@@ -186,6 +186,7 @@ func C16(ctx *core.Ctx) int {
 	})
 	// output directories whose names are words the command line knows (format, compile, help ...), in both forms
 	wordRuns := c16DirectoryWords(ctx, bin, progs)
+	spellRuns := c16Spellings(ctx, bin, progs)
 	compRuns, straced := c16Compile(ctx, bin, progs)
 	nd := 0
 	distinct.Range(func(k, v any) bool { nd++; return true })
@@ -204,6 +205,7 @@ func C16(ctx *core.Ctx) int {
 		"shared_output_directory_runs":        sharedRuns,
 		"library_call_sequences":              seqCalls,
 		"directory_named_like_a_command_runs": wordRuns,
+		"flag_and_path_spelling_runs":         spellRuns,
 		"compile_runs_straced":                straced,
 		"exhaustive":                          true,
 	}
@@ -571,5 +573,138 @@ func c16DirectoryWords(ctx *core.Ctx, bin string, progs []*dsl.Program) int64 {
 			}
 		}
 	})
+	return runs
+}
+
+// c16Spellings: the same compilation asked for in every spelling the command line offers - short and long flag
+// names, values attached (-fx, --file=x) or separate, the output directory given as ".", "./", "sub/..", a nested
+// directory that does not exist yet, a path with a trailing slash, an absolute path, a path relative to a
+// different working directory - in both command forms. Oracle: exit 0 and exactly the generator's files under
+// the directory the spelling denotes.
+func c16Spellings(ctx *core.Ctx, bin string, progs []*dsl.Program) int64 {
+	var p *dsl.Program
+	for _, q := range progs {
+		if q.Name == "P5/two-match" {
+			p = q
+		}
+	}
+	if p == nil {
+		return 0
+	}
+	text := p.Text()
+	m, diags, err := parseText(ctx, text)
+	if err != nil || len(diags) > 0 {
+		return 0
+	}
+	long := map[string]string{"go": "--go_output", "rust": "--rs_output", "java": "--java_output", "python": "--py_output", "cpp": "--cpp_output", "lua": "--lua_output"}
+	type dirSpell struct {
+		name   string
+		arg    string // as written on the command line (relative to the working directory "work")
+		lands  string // where the files must be, relative to the scratch root
+		mkdirs []string
+	}
+	dirs := []dirSpell{
+		{"current directory .", ".", "work", nil},
+		{"current directory ./", "./", "work", nil},
+		{"sub/..", "sub/..", "work", []string{"work/sub"}},
+		{"nested, not existing yet", "a/b/c", "work/a/b/c", nil},
+		{"trailing slash", "out/", "work/out", nil},
+		{"parent-relative", "../sibling", "sibling", nil},
+		{"absolute", "", "abs/out", nil}, // arg filled in per run
+	}
+	type fileSpell struct{ name string }
+	fileSpells := []string{"-f x", "-fx", "--file x", "--file=x"}
+	var runs int64
+	type job struct {
+		lang        string
+		d           dirSpell
+		fs          string
+		bare        bool
+		attachedOut bool
+	}
+	var jobs []job
+	for li, l := range api.Langs {
+		for di, d := range dirs {
+			for fi, fs := range fileSpells {
+				for _, bare := range []bool{false, true} {
+					if !ctx.Thorough() && (li+di+fi)%3 != 0 {
+						continue
+					}
+					jobs = append(jobs, job{l, d, fs, bare, (li+di+fi)%2 == 1})
+				}
+			}
+		}
+	}
+	core.Parallel(len(jobs), func(k int) {
+		j := jobs[k]
+		files, err := func() (map[string][]byte, error) {
+			mm, _, e := parseText(ctx, text)
+			if e != nil {
+				return nil, e
+			}
+			return api.Generate(mm, j.lang)
+		}()
+		if err != nil {
+			return
+		}
+		root := ctx.TempPath(".sp")
+		work := filepath.Join(root, "work")
+		os.MkdirAll(work, 0o755)
+		defer os.RemoveAll(root)
+		for _, d := range j.d.mkdirs {
+			os.MkdirAll(filepath.Join(root, d), 0o755)
+		}
+		dsl := filepath.Join(work, "in.dsl")
+		os.WriteFile(dsl, []byte(text), 0o644)
+		outArg := j.d.arg
+		if j.d.name == "absolute" {
+			outArg = filepath.Join(root, "abs", "out")
+		}
+		var args []string
+		if !j.bare {
+			args = append(args, "compile")
+		}
+		switch j.fs {
+		case "-f x":
+			args = append(args, "-f", "in.dsl")
+		case "-fx":
+			args = append(args, "-fin.dsl")
+		case "--file x":
+			args = append(args, "--file", "in.dsl")
+		case "--file=x":
+			args = append(args, "--file=in.dsl")
+		}
+		if j.attachedOut {
+			args = append(args, long[j.lang]+"="+outArg)
+		} else {
+			args = append(args, langFlag[j.lang], outArg)
+		}
+		r := runCLI(work, 120*time.Second, bin, args...)
+		atomic.AddInt64(&runs, 1)
+		if r.crashed {
+			return
+		}
+		form := "compile"
+		if j.bare {
+			form = "bare flags"
+		}
+		rep := map[string]any{"name": p.Name, "text": text, "args": args, "lang": j.lang}
+		sig := fmt.Sprintf("%s|input file as %s|output directory as %s", form, strings.Replace(j.fs, "x", "<path>", 1), j.d.name)
+		if j.attachedOut {
+			sig += " (--<lang>_output=<dir>)"
+		}
+		if r.exit != 0 {
+			ctx.Report(sig+"|rejected", fmt.Sprintf("%v: exit %d\n%s", args, r.exit, core.Trunc(r.stdout+r.stderr, 300)), rep)
+			return
+		}
+		got := dirFiles(filepath.Join(root, j.d.lands))
+		for n, b := range files {
+			if got[n] != string(b) {
+				ctx.Report(sig+"|the generator's files are not where the path says", fmt.Sprintf("%v: %s missing or different under %s", args, n, j.d.lands), rep)
+				return
+			}
+		}
+	})
+	_ = m
 	return runs
 }
